@@ -116,6 +116,14 @@ namespace sim
 		m_handler = std::move(handler);
 		if (m_expired)
 		{
+			if (m_expiration_time > chrono::high_resolution_clock::now())
+			{
+				// the timer was cancelled before its expiry: the wait completes
+				// when the expiry is reached, not right away
+				m_expired = false;
+				m_io_service->add_timer(this);
+				return;
+			}
 			fire(boost::system::error_code());
 			return;
 		}
